@@ -319,8 +319,6 @@ def functions():
         f('lastbit(%s)' % lit(x), lambda u=u: -1 if u == 0 else u.bit_length() - 1)
 
         def bp(u=u):
-            if u == 2 ** 63:
-                raise Skip()   # bit 63 alone: sign bit, the manual does not say whether it counts as a unique bit
             if popcnt(u) != 1:
                 raise Err()
             return u.bit_length() - 1
